@@ -102,17 +102,23 @@ func Variants(msaIn io.Reader, stdin bool, refID string, annoIn io.Reader, annoS
 
 	if stdin && refID != "" {
 		verifhook.Jitter("variants.stdinReference", 0)
+		// a record that is already waiting wins over the reader's done signal: for a short alignment both are
+		// ready at once, and a plain select would pick between them at random
 		select {
 		case ref = <-cMSA:
-			if ref.ID != refID {
-				return errors.New("--reference is not the first record in --msa")
+		default:
+			select {
+			case ref = <-cMSA:
+			case err := <-cErr:
+				return err
+			case <-cMSADone:
+				return errors.New("is the pipe to --msa empty?")
 			}
-			firstmissing = true
-		case err := <-cErr:
-			return err
-		case <-cMSADone:
-			return errors.New("is the pipe to --msa empty?") // TO DO - does this work/is this necessary?
 		}
+		if ref.ID != refID {
+			return errors.New("--reference is not the first record in --msa")
+		}
+		firstmissing = true
 	}
 
 	var cdsregions []Region
